@@ -196,6 +196,35 @@ fn hll_b(s: &HllSketch) -> [f64; 7] {
     [s.estimate(), s.lower_bound(SDS[0]), s.lower_bound(SDS[1]), s.lower_bound(SDS[2]), s.upper_bound(SDS[0]), s.upper_bound(SDS[1]), s.upper_bound(SDS[2])]
 }
 
+/// Half-widths of the HLL intervals against the advertised RSE of the estimator in use (HIP 0.8326/sqrt(k) for a
+/// sketch that saw its stream in order, 1.039/sqrt(k) for a union result), array regime only (n >= k).
+fn width_check(ctx: &mut Ctx, lg_k: u8, n: u64, b: &[f64; 7], factor: f64, path: &str) {
+    let k = (1u64 << lg_k) as f64;
+    if (n as f64) < k || b[0] <= 0.0 {
+        return;
+    }
+    let adv = factor / k.sqrt();
+    for s in 0..3 {
+        let sd = (s + 1) as f64;
+        let up = (b[4 + s] / b[0] - 1.0) / sd / adv;
+        let lo = (1.0 - b[1 + s] / b[0]) / sd / adv;
+        let grp = if lg_k >= 13 { "lg_k>=13" } else { "lg_k<=12" };
+        ctx.cover_max(&format!("width_over_rse_max_{}_{}", grp, path), up.max(lo));
+        ctx.cover_max(&format!("width_over_rse_negmin_{}_{}", grp, path), -(up.min(lo)));
+        // above lg_k 12 the bounds are est / (1 -+ s * RSE): the ratio is 1 up to a term s * RSE (observed
+        // 0.976..1.025); up to lg_k 12 they come from empirical quantile tables (observed 0.60..1.45)
+        let (lo_ok, hi_ok) = if lg_k >= 13 { (0.93, 1.07) } else { (0.5, 1.7) };
+        ctx.evals(1);
+        if up.min(lo) < lo_ok || up.max(lo) > hi_ok {
+            ctx.violation(
+                "interval half-width inconsistent with the advertised RSE",
+                format!("HLL lg_k={} {} n={}: {}-sigma half-widths {:.3} (upper) / {:.3} (lower) x advertised RSE {:.5}; est {} lb {} ub {}", lg_k, path, n, s + 1, up, lo, adv, b[0], b[1 + s], b[4 + s]),
+            );
+            return;
+        }
+    }
+}
+
 fn hll_config(ctx: &mut Ctx, case: &Json, stats: &mut Vec<Json>) {
     let lg_k = case.u64("lg_k").unwrap_or(8) as u8;
     let t = [HllType::Hll4, HllType::Hll6, HllType::Hll8][(case.u64("type").unwrap_or(2) % 3) as usize];
@@ -239,6 +268,7 @@ fn hll_config(ctx: &mut Ctx, case: &Json, stats: &mut Vec<Json>) {
                     hll_b(&s)
                 };
                 det_check(ctx, &format!("HLL lg_k={} {} streamed", lg_k, tname(t)), n, &b, s.is_empty());
+                width_check(ctx, lg_k, n, &b, 0.8326, "streamed");
                 acc_stream[ci].add(n, &b);
                 // merged
                 if ci % 2 == 0 || cps[ci] <= 64 {
@@ -253,6 +283,7 @@ fn hll_config(ctx: &mut Ctx, case: &Json, stats: &mut Vec<Json>) {
                         ctx.violation("union and to_sketch report different estimates", format!("HLL lg_k={} {} n={}: {:?} vs {:?}", lg_k, tname(t), n, bu, ub));
                     }
                     det_check(ctx, &format!("HLL lg_k={} {} merged", lg_k, tname(t)), n, &bu, r.is_empty());
+                    width_check(ctx, lg_k, n, &bu, 1.039, "merged");
                     acc_merged[ci].add(n, &bu);
                 }
                 ci += 1;
@@ -284,7 +315,7 @@ fn cpc_config(ctx: &mut Ctx, case: &Json, stats: &mut Vec<Json>) {
     let k = (1u64 << lg_k) as f64;
     let mut acc_stream = vec![Acc::default(); cps.len()];
     let mut acc_merged = vec![Acc::default(); cps.len()];
-    for _trial in 0..trials {
+    for trial in 0..trials {
         let salt = rng.next_u64();
         let mut s = CpcSketch::new(lg_k);
         let parts_n = rng.usize(2, 3);
@@ -322,6 +353,21 @@ fn cpc_config(ctx: &mut Ctx, case: &Json, stats: &mut Vec<Json>) {
                     let r = u.to_sketch();
                     let bu = cpc_b(&r);
                     det_check(ctx, &format!("CPC lg_k={} merged", lg_k), n, &bu, r.is_empty());
+                    // the merged estimate is ICON: a deterministic function of (lg_k, C), defined as the n whose
+                    // expected coupon count is C. A shift of the approximation is a bias, seen here without noise.
+                    let c = r.num_coupons() as u64;
+                    if c > 0 && trial < 64 {
+                        let want = crate::model::cpc::icon_reference(r.lg_k(), c);
+                        let dev = bu[0] / want - 1.0;
+                        ctx.evals(1);
+                        ctx.cover_max("icon_worst_deviation_over_tolerance", dev.abs() / super::c06::icon_tolerance(r.lg_k(), c));
+                        if dev.abs() > super::c06::icon_tolerance(r.lg_k(), c) {
+                            ctx.violation(
+                                "merged CPC estimate is shifted against the definition of ICON",
+                                format!("CPC lg_k={} merged n={}: C {} estimate {} vs {} (relative deviation {:+.2e})", lg_k, n, c, bu[0], want, dev),
+                            );
+                        }
+                    }
                     acc_merged[ci].add(n, &bu);
                 }
                 ci += 1;
